@@ -12,23 +12,71 @@ use std::collections::BTreeSet;
 
 pub const TYPES: [&str; 6] = ["AdjacencyList", "AdjacencyMap", "AdjacencyMatrix", "EdgeList", "AdjacencyListWeighted<usize>", "AdjacencyMap(non-contiguous)"];
 
-pub fn check<D: OutNeighbors + Vertices>(d: &D, m: &Model, o: &mut CaseOut) {
+/// Classes of mutual reachability. For big inputs the closure per vertex is
+/// too slow, so use: v ~ u iff v in reach(u) and u in reach^-1... computed as
+/// forward reach from u intersected with forward reach in the converse.
+pub fn sccs_fast(m: &Model) -> BTreeSet<BTreeSet<usize>> {
+    if m.n() <= 40 {
+        return m.sccs();
+    }
+    let conv = m.converse();
+    let mut out = BTreeSet::new();
+    let mut done: BTreeSet<usize> = BTreeSet::new();
+    for &u in &m.verts {
+        if done.contains(&u) {
+            continue;
+        }
+        let f = m.reach(&[u]);
+        let b = conv.reach(&[u]);
+        let c: BTreeSet<usize> = f.intersection(&b).copied().collect();
+        for &v in &c {
+            done.insert(v);
+        }
+        out.insert(c);
+    }
+    out
+}
+
+pub fn check<D: OutNeighbors + Vertices + Clone>(d: &D, m: &Model, o: &mut CaseOut) {
     let mut t = Tarjan::new(d);
     let comps: Vec<BTreeSet<usize>> = t.components().clone();
     let total: usize = comps.iter().map(BTreeSet::len).sum();
     let all: BTreeSet<usize> = comps.iter().flatten().copied().collect();
     o.check(total == m.n() && all == m.verts && comps.iter().all(|c| !c.is_empty()), "not-a-partition", || format!("components {comps:?} of V {:?}", m.vert_list()));
     let got: BTreeSet<BTreeSet<usize>> = comps.iter().cloned().collect();
-    let want = m.sccs();
-    o.check(got == want, "components", || format!("got {got:?} want {want:?}"));
+    let want = sccs_fast(m);
+    o.check(got == want, "components", || crate::ctx::clip(&format!("got {got:?} want {want:?}")));
+    // asking again (or asking a clone) must give the same partition
+    let again: Vec<BTreeSet<usize>> = t.components().clone();
+    o.check(again == comps, "components-differ-on-second-call", || crate::ctx::clip(&format!("first {comps:?} second {again:?}")));
+    let mut c = t.clone();
+    let cloned: Vec<BTreeSet<usize>> = c.components().clone();
+    o.check(cloned == comps, "components-differ-on-a-clone", || crate::ctx::clip(&format!("first {comps:?} clone {cloned:?}")));
 }
 
 pub fn case(idx: u64, seed: u64, p: &Params, o: &mut CaseOut) {
     let mut r = Rng::for_case(9, seed, idx);
     let max = p.usize("max_order", 16);
-    let fam = if r.chance(0.35) { 14 } else { r.below(gen::FAMILIES.len()) };
-    let n = gen::small_order(&mut r, max);
+    let mut fam = if r.chance(0.35) { 14 } else { r.below(gen::FAMILIES.len()) };
+    let n = gen::algo_order(&mut r, max, 257);
+    if n > max && fam != 14 {
+        fam = gen::sparse_family(&mut r);
+    }
     let mut m = gen::family(&mut r, fam, n);
+    let huge = p.usize("huge_per_100k", 60);
+    if r.below(100_000) < huge {
+        // deep recursion: a long circuit / path with a few extra arcs
+        let n = r.range(1100, p.usize("huge_max", 2600));
+        fam = if r.chance(0.7) { 4 } else { 3 };
+        m = gen::family(&mut r, fam, n);
+        for _ in 0..r.below(6) {
+            let (u, v) = (r.below(n), r.below(n));
+            if u != v {
+                m.add(u, v, 1);
+            }
+        }
+        o.bump("huge_order");
+    }
     let ty = r.below(6);
     match ty {
         0 => check(&AdjacencyList::build(&m), &m, o),
@@ -41,7 +89,7 @@ pub fn case(idx: u64, seed: u64, p: &Params, o: &mut CaseOut) {
             check(&build_map_any(&m), &m, o);
         }
     }
-    let sccs = m.sccs();
+    let sccs = sccs_fast(&m);
     let mut fp = Fp::new();
     fp.us(ty);
     m.fingerprint(&mut fp);
